@@ -117,4 +117,20 @@ inline std::unique_ptr<z_cfg_t> build_cfg(const vj::Value &p, const VarTab &vt) 
   return cfg;
 }
 
+// function record {"name","in","out","entry","exit","blocks"} -> CFG with a function declaration
+inline std::unique_ptr<z_cfg_t> build_cfg_fn(const vj::Value &f, const VarTab &vt) {
+  crab::cfg::function_decl<z_number, varname_t> decl(f["name"].str(), var_vec(f["in"], vt), var_vec(f["out"], vt));
+  std::unique_ptr<z_cfg_t> cfg(new z_cfg_t(blabel(f["entry"].i()), blabel(f["exit"].i()), decl));
+  const vj::Value &bs = f["blocks"];
+  for (size_t i = 1; i <= bs.size(); ++i) cfg->insert(blabel(i));
+  for (size_t i = 1; i <= bs.size(); ++i) {
+    z_basic_block_t &bb = cfg->get_node(blabel(i));
+    const vj::Value &succ = bs[i - 1]["succ"];
+    for (size_t k = 0; k < succ.size(); ++k) bb >> cfg->get_node(blabel(succ[k].i()));
+    const vj::Value &stmts = bs[i - 1]["stmts"];
+    for (size_t k = 0; k < stmts.size(); ++k) add_stmt(bb, stmts[k], vt);
+  }
+  return cfg;
+}
+
 } // namespace vh
